@@ -961,6 +961,7 @@ def contract_call(eng, st, target, args, kwargs, node):
         if len(args) + len(kwargs) < len(c.params):
             args = [VConst(f"{target.split(':')[0]}:{target.split(':')[1].rsplit('.', 1)[0]}", "class")] + list(args)
     bound = bind_params(eng, c, fdef, module, args, kwargs)
+    views = coerce_file_views(eng, st, c, bound, node)
     fr.callees.add(c.key)
     if c.assumed:
         fr.assumed_used.add(c.key)
@@ -1001,6 +1002,7 @@ def contract_call(eng, st, target, args, kwargs, node):
                 finally:
                     eng.fr.init_state = saved
             bad.env["aes_calls"] = VInt(na)
+        writeback_views(eng, bad, views)
         eng.throw(bad, exc, node, f"raised by {short}")
     # normal outcome
     ns = st
@@ -1037,8 +1039,57 @@ def contract_call(eng, st, target, args, kwargs, node):
             ns.assume(t)
     finally:
         fr.init_state = saved_init
+    writeback_views(eng, ns, views)
     outs.append((ns, res))
     return outs
+
+
+def coerce_file_views(eng, st, c, bound, node):
+    """A XorEncodedFile passed where a binary file is expected is used through the contract proved for it
+    (C09): a read-only file whose content is the decoded payload and whose position is the logical one.
+    Obligation: the object is well formed (nonce cached, nonce_offset + 8 <= len) and the logical position >= 0."""
+    views = []
+    for name, ty in c.params:
+        v = bound.get(name)
+        if (ty or "") != "file" or not isinstance(v, VRef):
+            continue
+        cell = st.heap.get(v.ident)
+        if not (isinstance(cell, dict) and cell.get("__kind__") == "obj" and cell.get("__class__") == "XorEncodedFile"):
+            continue
+        fh = cell["fh"]
+        fcell = st.heap[fh.ident]
+        E, off = fcell["content"].t, eng.as_int(st, cell["nonce_offset"])
+        nonce = eng.deref(st, cell["initial_nonce"]).t
+        wf = z3.And(0 <= off, off + 8 <= IS.len(E), IS.len(nonce) == 4,
+                    *[IS.at(nonce, z3.IntVal(t)) == IS.at(E, off + t) for t in range(4)])
+        eng.oblige(st, wf, f"xorview-wellformed@{c.target.split(':')[1]}", "", info={"line": getattr(node, "lineno", 0)})
+        lpos = fcell["pos"].t - (off + 8)
+        eng.oblige(st, lpos >= 0, f"xorview-position@{c.target.split(':')[1]}", "")
+        key = ("xview", E.get_id(), off.get_id())
+        if key not in st.ghost:
+            view = fresh("xview", ISq)
+            i = fresh("i", I)
+            xp = eng.specs.decl(eng.specs.funcs["xplain_at"])
+            st.assume(IS.len(view) == IS.len(E) - (off + 8), is_bytes_fact(view),
+                      z3.ForAll([i], z3.Implies(z3.And(0 <= i, i < IS.len(view)), IS.at(view, i) == xp(E, off, i)),
+                                patterns=[IS.at(view, i)]))
+            st.ghost[key] = view
+        view = st.ghost[key]
+        ident = f"file!xview!{next(_ids)}"
+        st.heap[ident] = {"__kind__": "file", "content": VSeq(view, "bytes"), "pos": VInt(lpos), "fkind": "bytesio",
+                          "__view_of__": (v.ident, fh.ident, off)}
+        bound[name] = VRef(ident, "file")
+        views.append((ident, fh.ident, off))
+        eng.fr.callees.add("dissect.cobaltstrike.xordecode:XorEncodedFile.read (file refinement, C09)")
+    return views
+
+
+def writeback_views(eng, st, views):
+    for ident, fhident, off in views:
+        vcell = st.heap[ident]
+        nc = dict(st.heap[fhident])
+        nc["pos"] = VInt(vcell["pos"].t + off + 8)
+        st.heap[fhident] = nc
 
 
 def _with_env(st, env):
